@@ -19,6 +19,7 @@ func checkC07(c *an.Ctx) {
 	c.Rule("C07.2", "deferred reset (E2/E4): ExitCode := 0 is executed iff the task is neither errored nor skipped; ExitCode, Errored and Skipped have no other writers than the job walk, the skip branch, the reset and constructors")
 	c.Rule("C07.3", "error chain (E7): the error of the job walk reaches main through propagating call sites only (Run → runTask / runStage → graph error → Schedule → runPipeline → runTarget → actions → app.Run → run → main); main exits non-zero exactly on a non-nil error")
 	c.Rule("C07.4", "sequential targets (E2/E3): every loop over the command-line arguments that runs targets does so by synchronous calls in slice order and returns on the first error")
+	c.Rule("C07.5", "the output layer cannot fail a command (io.Writer contract, = C19.1): every Write of pkg/output reports the full length on success — a short count from a decorator travels up through the MultiWriters into os/exec's copy of the command's output and comes back from the interpreter as an error that is not an exit status, which marks a task errored although all its commands exited 0")
 	c.NotDecided = append(c.NotDecided, "the numeric status the shell library reports for a process", "what logrus.Fatal does (trusted: exits with status 1)", "urfave/cli returning an Action's error from App.Run (trusted summary)")
 	r := resolveRunner(c, "C07.0")
 	if !r.ok {
@@ -39,6 +40,7 @@ func checkC07(c *an.Ctx) {
 		errorReport(c, s, "C07.3")
 	}
 	sequentialTargets(c, r, "C07.4")
+	writerContract(c, "C07.5")
 }
 
 func intBits(t types.Type) (bits int, signed bool, ok bool) {
